@@ -21,6 +21,7 @@ import (
 	"github.com/DrmagicE/gmqtt"
 	"github.com/DrmagicE/gmqtt/config"
 	"github.com/DrmagicE/gmqtt/persistence/queue"
+	"github.com/DrmagicE/gmqtt/pkg/packets"
 	"github.com/DrmagicE/gmqtt/server"
 
 	"verifharness/inproc"
@@ -34,6 +35,95 @@ type Sub struct {
 	Nl  bool   `json:"nl"`
 	Rap bool   `json:"rap"`
 	Rh  int    `json:"rh"`
+}
+
+// AppProps are the application properties of a message (MQTT 5): they travel with it unaltered.
+type AppProps struct {
+	Pf int         `json:"pf"` // Payload Format Indicator (0 = absent)
+	Ct string      `json:"ct"` // Content Type ("" = absent)
+	Rt string      `json:"rt"` // Response Topic
+	Cd string      `json:"cd"` // Correlation Data (the bytes of this string)
+	Up [][2]string `json:"up"` // User Properties, in order
+}
+
+// canonProps is the canonical one-line form of application properties ("" = none) used in traces.
+func canonProps(pf int, ct, rt string, cd []byte, up [][2]string) string {
+	var parts []string
+	if pf != 0 {
+		parts = append(parts, "pf="+strconv.Itoa(pf))
+	}
+	if ct != "" {
+		parts = append(parts, "ct="+ct)
+	}
+	if rt != "" {
+		parts = append(parts, "rt="+rt)
+	}
+	if len(cd) > 0 {
+		parts = append(parts, "cd="+hex.EncodeToString(cd))
+	}
+	if len(up) > 0 {
+		kv := make([]string, len(up))
+		for i, u := range up {
+			kv[i] = u[0] + "=" + u[1]
+		}
+		parts = append(parts, "up="+strings.Join(kv, ","))
+	}
+	return strings.Join(parts, ";")
+}
+
+func (ap *AppProps) canon() string {
+	if ap == nil {
+		return ""
+	}
+	return canonProps(ap.Pf, ap.Ct, ap.Rt, []byte(ap.Cd), ap.Up)
+}
+
+// apply writes the properties into an outgoing packet's property list.
+func (ap *AppProps) apply(ps *mw.Props) {
+	if ap == nil {
+		return
+	}
+	if ap.Pf != 0 {
+		v := byte(ap.Pf)
+		ps.PayloadFormat = &v
+	}
+	if ap.Ct != "" {
+		v := ap.Ct
+		ps.ContentType = &v
+	}
+	if ap.Rt != "" {
+		v := ap.Rt
+		ps.ResponseTopic = &v
+	}
+	if ap.Cd != "" {
+		ps.CorrelationData = []byte(ap.Cd)
+	}
+	for _, u := range ap.Up {
+		ps.User = append(ps.User, mw.UserProp{K: u[0], V: u[1]})
+	}
+}
+
+// canonRecv is the canonical form of the application properties of a received packet.
+func canonRecv(ps *mw.Props) string {
+	if ps == nil {
+		return ""
+	}
+	pf := 0
+	if ps.PayloadFormat != nil {
+		pf = int(*ps.PayloadFormat)
+	}
+	ct, rt := "", ""
+	if ps.ContentType != nil {
+		ct = *ps.ContentType
+	}
+	if ps.ResponseTopic != nil {
+		rt = *ps.ResponseTopic
+	}
+	var up [][2]string
+	for _, u := range ps.User {
+		up = append(up, [2]string{u.K, u.V})
+	}
+	return canonProps(pf, ct, rt, ps.CorrelationData, up)
 }
 
 // Step is one scripted action.
@@ -52,30 +142,32 @@ type Step struct {
 	NoSent    bool   `json:"nosentinel"`
 	ManualAck bool   `json:"manualack"` // deliveries are not acknowledged automatically
 	Will      *struct {
-		Topic  string `json:"topic"`
-		Qos    int    `json:"qos"`
-		Retain bool   `json:"retain"`
-		Tag    string `json:"tag"`
-		Delay  int64  `json:"delay"`
-		Expiry int64  `json:"expiry"`
+		Topic  string    `json:"topic"`
+		Qos    int       `json:"qos"`
+		Retain bool      `json:"retain"`
+		Tag    string    `json:"tag"`
+		Delay  int64     `json:"delay"`
+		Expiry int64     `json:"expiry"`
+		Props  *AppProps `json:"props"`
 	} `json:"will"`
 	// subscribe / unsubscribe
 	Subs  []Sub    `json:"subs"`
 	SubID int      `json:"subid"`
 	Names []string `json:"names"`
 	// publish
-	Topic   string `json:"topic"`
-	Qos     int    `json:"qos"`
-	Retain  bool   `json:"retain"`
-	Tag     string `json:"tag"`
-	Dup     bool   `json:"dup"`
-	Pid     int    `json:"pid"`     // explicit packet id (0 = choose)
-	MsgExp  int64  `json:"msgexp"`  // message expiry interval (0 = none)
-	Alias   int    `json:"alias"`   // topic alias to send (0 = none)
-	NoTopic bool   `json:"notopic"` // send alias only
-	Pad     int    `json:"pad"`     // payload padded with '.' up to this many bytes (tag first)
-	NoRel   bool   `json:"norel"`   // QoS2: do not send PUBREL after PUBREC
-	Fq      int    `json:"fq"`      // QoS at which the one size-limited subscriber of the scenario would get it (for fsize)
+	Topic   string    `json:"topic"`
+	Qos     int       `json:"qos"`
+	Retain  bool      `json:"retain"`
+	Tag     string    `json:"tag"`
+	Dup     bool      `json:"dup"`
+	Pid     int       `json:"pid"`     // explicit packet id (0 = choose)
+	MsgExp  int64     `json:"msgexp"`  // message expiry interval (0 = none)
+	Alias   int       `json:"alias"`   // topic alias to send (0 = none)
+	NoTopic bool      `json:"notopic"` // send alias only
+	Pad     int       `json:"pad"`     // payload padded with '.' up to this many bytes (tag first)
+	NoRel   bool      `json:"norel"`   // QoS2: do not send PUBREL after PUBREC
+	Props   *AppProps `json:"props"`   // application properties (v5 publisher / Publisher API)
+	Fq      int       `json:"fq"`      // QoS at which the one size-limited subscriber of the scenario would get it (for fsize)
 	// ack (manual)
 	T    string `json:"t"`   // "puback" | "pubrec" | "pubcomp" | "pubrel" | "auto"
 	Sel  int    `json:"sel"` // with t = "auto": acknowledge the (sel mod n)-th oldest unacknowledged delivery
@@ -407,7 +499,7 @@ func (r *Run) step(s *Step) {
 	case "publish":
 		r.publish(s)
 	case "apipublish":
-		r.apipublish(s.Topic, s.Qos, s.Retain, s.Tag, s.MsgExp)
+		r.apipublish(s.Topic, s.Qos, s.Retain, s.Tag, s.MsgExp, s.Props)
 	case "ack":
 		r.ack(s)
 	case "ping":
@@ -655,7 +747,7 @@ func (a *actor) logRecv(p *mw.Packet) {
 		}
 		rec.Log(inproc.Event{"e": "deliver", "k": a.k, "topic": topic, "rawtopic": p.Topic, "alias": alias, "tag": tag,
 			"qos": int(p.QoS), "retain": p.Retain, "dup": p.Dup, "pid": int(p.PacketID), "ids": ids, "msgexp": msgexp,
-			"size": len(p.Raw)})
+			"size": len(p.Raw), "props": canonRecv(p.Props)})
 		if p.QoS > 0 {
 			a.mu.Lock()
 			found := false
@@ -814,10 +906,14 @@ func (r *Run) connect(s *Step) {
 				v := uint32(s.Will.Expiry)
 				wp.MessageExpiry = &v
 			}
+			s.Will.Props.apply(wp)
 		}
 		p.WithWill(s.Will.Topic, []byte(s.Will.Tag), byte(s.Will.Qos), s.Will.Retain, wp)
 		ev["will"] = map[string]interface{}{"topic": s.Will.Topic, "lv": lv(s.Will.Topic), "sys": isSys(s.Will.Topic), "qos": s.Will.Qos,
-			"retain": s.Will.Retain, "tag": s.Will.Tag, "delay": s.Will.Delay}
+			"retain": s.Will.Retain, "tag": s.Will.Tag, "delay": s.Will.Delay, "props": ""}
+		if ver == mw.V5 {
+			ev["will"].(map[string]interface{})["props"] = s.Will.Props.canon()
+		}
 	}
 	p.Version = ver
 	ev["size"] = mw.Size(p)
@@ -935,13 +1031,18 @@ func (r *Run) publish(s *Step) {
 				p.Topic = ""
 			}
 		}
+		s.Props.apply(p.Props)
 	}
 	p.Version = a.ver
 	m := a.mark()
-	fsz := fwdSize(s.Topic, s.Fq, pl)
+	props := ""
+	if a.ver == mw.V5 {
+		props = s.Props.canon()
+	}
+	fsz := fwdSize(s.Topic, s.Fq, pl, s.Props)
 	r.Rec.Log(inproc.Event{"e": "publish", "fsize": fsz, "k": s.K, "pid": int(pid), "qos": s.Qos, "retain": s.Retain, "dup": s.Dup, "topic": s.Topic,
 		"lv": lv(s.Topic), "sys": isSys(s.Topic), "tag": s.Tag, "empty": len(pl) == 0, "msgexp": s.MsgExp, "alias": s.Alias,
-		"notopic": s.NoTopic, "size": mw.Size(p)})
+		"notopic": s.NoTopic, "size": mw.Size(p), "props": props})
 	if err := a.c.Send(p); err != nil {
 		r.note("publish send error: " + err.Error())
 		return
@@ -974,7 +1075,7 @@ func (r *Run) pubrel(a *actor, pid uint16) {
 
 // fwdSize is the size of the PUBLISH a v5 subscriber would be sent for this message at QoS fq, without
 // subscription identifiers, topic alias or other properties (computed with the independent codec).
-func fwdSize(topic string, fq int, payload []byte) int {
+func fwdSize(topic string, fq int, payload []byte, ap *AppProps) int {
 	var pid uint16
 	if fq > 0 {
 		pid = 1
@@ -982,13 +1083,21 @@ func fwdSize(topic string, fq int, payload []byte) int {
 	p := mw.Publish(topic, byte(fq), false, pid, payload)
 	p.Version = mw.V5
 	p.Props = &mw.Props{}
+	ap.apply(p.Props)
 	return mw.Size(p)
 }
 
-func (r *Run) apipublish(topic string, qos int, retain bool, tag string, msgexp int64) {
-	r.Rec.Log(inproc.Event{"e": "apipublish", "alias": 0, "notopic": false, "size": 0, "fsize": fwdSize(topic, qos, []byte(tag)), "k": 0, "pid": 0, "qos": qos, "retain": retain, "dup": false, "topic": topic, "lv": lv(topic),
+func (r *Run) apipublish(topic string, qos int, retain bool, tag string, msgexp int64, ap *AppProps) {
+	r.Rec.Log(inproc.Event{"e": "apipublish", "props": ap.canon(), "alias": 0, "notopic": false, "size": 0, "fsize": fwdSize(topic, qos, []byte(tag), ap), "k": 0, "pid": 0, "qos": qos, "retain": retain, "dup": false, "topic": topic, "lv": lv(topic),
 		"sys": isSys(topic), "tag": tag, "empty": len(tag) == 0, "msgexp": msgexp})
-	r.B.Srv.Publisher().Publish(&gmqtt.Message{Topic: topic, QoS: uint8(qos), Retained: retain, Payload: []byte(tag), MessageExpiry: uint32(msgexp)})
+	msg := &gmqtt.Message{Topic: topic, QoS: uint8(qos), Retained: retain, Payload: []byte(tag), MessageExpiry: uint32(msgexp)}
+	if ap != nil {
+		msg.PayloadFormat, msg.ContentType, msg.ResponseTopic, msg.CorrelationData = byte(ap.Pf), ap.Ct, ap.Rt, []byte(ap.Cd)
+		for _, u := range ap.Up {
+			msg.UserProperties = append(msg.UserProperties, packets.UserProperty{K: []byte(u[0]), V: []byte(u[1])})
+		}
+	}
+	r.B.Srv.Publisher().Publish(msg)
 }
 
 func (r *Run) ack(s *Step) {
@@ -1141,7 +1250,7 @@ func (r *Run) barrier() {
 		}
 		tag := fmt.Sprintf("S%d-%d", n, a.k)
 		m := a.mark()
-		r.apipublish("$vs/"+a.cid, 0, false, tag, 0)
+		r.apipublish("$vs/"+a.cid, 0, false, tag, 0, nil)
 		to := r.TO.Barrier
 		if a.manual {
 			// messages still on their way may fill the window before the sentinel: a missing sentinel is not an
